@@ -509,7 +509,7 @@ index_expr: identifier LEFT_BRACKET SPACE_EOLS expr SPACE_EOLS RIGHT_BRACKET
 | DOT LEFT_BRACKET SPACE_EOLS expr SPACE_EOLS RIGHT_BRACKET	
 // 兼容原有语法，仅作为 json 函数的第二个参数
 {
-	$$ = yylex.(*parser).newIndexExpr(nil, $2, $4, $6)
+	$$ = yylex.(*parser).newRootlessIndexExpr($1, $2, $4, $6)
 }
 | index_expr LEFT_BRACKET SPACE_EOLS expr SPACE_EOLS RIGHT_BRACKET
 {
